@@ -42,5 +42,13 @@ for name, key, opt in [(n, k, ["--skip-ghost", n]) for n, k in hints] + [(n, k, 
         print("%-40s %s" % (name, names))
     finally:
         shutil.rmtree(wd, ignore_errors=True)
+# closure literals per function on the pinned tree: a function that has gained one contains a closure without a contract
+wd = tempfile.mkdtemp(prefix="hint-", dir=os.path.join(VERIF, ".work"))
+try:
+    subprocess.run([sys.executable, os.path.join(HERE, "splice.py"), "--repo", "/repo", "--out", os.path.join(wd, "gen")], stdout=subprocess.PIPE, stderr=subprocess.STDOUT, text=True)
+    meta = json.load(open(os.path.join(wd, "gen", "meta.json")))
+    out["__closure_counts__"] = {f["key"]: f.get("closures", 0) for f in meta["functions"]}
+finally:
+    shutil.rmtree(wd, ignore_errors=True)
 json.dump(out, open(os.path.join(VERIF, "contracts", "hint_serves.json"), "w"), indent=1, sort_keys=True)
 print("wrote contracts/hint_serves.json (%d hints)" % len(out))
